@@ -257,11 +257,7 @@ theorem replaceKids_merge_open_fwd (S : Schema) (ty : TypeId) (K K1 K2 : List No
         congr 1; omega
   have R1s := R1.shift (t' - (f + TA.length)) hTle haT
   rw [show f + TA.length + (t' - (f + TA.length)) = t' by omega] at R1s
-  -- right of the second step's content
-  have R2 : RightRel S K2 (f + TA.length + TB.length) K1 t' := by
-    have := F2.rrel hn1 hcn' (.inl rfl)
-    rw [hTB] at this
-    exact this haK2.2
+  -- right of the second step's content: composed with `R1` level by level, no transitivity
   have hR : RightRel S K (t + (t' - (f + TA.length))) K2 (f + TA.length + TB.length) := by
     have hpos : fsize K2 - (fsize K1 - t') = f + TA.length + TB.length := by
       have := F2.size
